@@ -19,9 +19,9 @@ FIELDS = [('p', 11), ('p', 101), ('p', 2**61 - 1), ('p', 2**127 - 1), ('x', 2, '
 def shards(tier, seed):
     out = []
     for i, f in enumerate(FIELDS):
-        out.append({'name': f'list-{i}', 'field': list(f), 'np': False, 'reps': 2 if tier == 'quick' else 12})
+        out.append({'name': f'list-{i}', 'field': list(f), 'np': False, 'reps': 2 if tier == 'quick' else 40})
         if tier == 'thorough' or i % 2 == 0:
-            out.append({'name': f'np-{i}', 'field': list(f), 'np': True, 'reps': 1 if tier == 'quick' else 6})
+            out.append({'name': f'np-{i}', 'field': list(f), 'np': True, 'reps': 1 if tier == 'quick' else 20})
     return out
 
 
